@@ -41,10 +41,11 @@ let count_reg (reg : registry) : string =
       List.iter (fun (k, _) -> incr n; if int_of_n (shard_for k) <> i then bad := true) sh) reg;
   if !bad then "BADSHARD" else "n" ^ string_of_int !n
 
-(* The shard a tuple lands in is an implementation choice (any function of the tuple into 0..15 gives
-   the same observable behaviour, theorem C17_refines_flat_spec).  The implementation's answer is
-   accepted when it is in range and the same every time the tuple is asked about in this case;
-   otherwise the model's own value is printed with a '!' so that the lines differ. *)
+(* The shard a tuple lands in - which hash, how many shards - is an implementation choice (theorems
+   C17_any_sharding_refines_flat_spec / _linearizable hold for every shard function).  The harness
+   numbers the shards in first-seen order; the implementation's answer is accepted when it is a
+   non-negative number and the same every time the tuple is asked about in this case (shardFor is a
+   FUNCTION of the tuple); otherwise the model's own value is printed with a '!' so that the lines differ. *)
 let run_seq (toks : string list) (impl : string list) : string =
   let seen = Hashtbl.create 8 in
   let impl = Array.of_list impl in
@@ -69,7 +70,7 @@ let run_seq (toks : string list) (impl : string list) : string =
          let ok =
            String.length theirs >= 2 && theirs.[0] = 's' &&
            (match int_of_string_opt (String.sub theirs 1 (String.length theirs - 1)) with
-            | Some i -> i >= 0 && i < 16 | None -> false) &&
+            | Some i -> i >= 0 | None -> false) &&
            (match Hashtbl.find_opt seen (show_key k) with Some prev -> prev = theirs | None -> true) in
          if ok then (Hashtbl.replace seen (show_key k) theirs; go reg rest (theirs :: acc))
          else go reg rest ((mine ^ "!") :: acc)
